@@ -106,6 +106,12 @@ def run(chk):
         add_symdel("R", ref, qs, k, model=False)
         if k == 1:
             add_lookupdb("R", ref, [q for q in qs], 1, model=False)
+    # many references, few queries (>= 8x), any alphabet: the wrappers must behave like the plain search
+    for _ in range(10 if not thorough else 80):
+        base = rng.choice(["CASSLGXAYEQYF", "CASSL*QAYEQYF", "cassf", "CAS_F", "ABABAB"])
+        ref = [gen.mutate(rng, base, "ABX*_qC", rng.randint(0, 2)) for _ in range(rng.randint(16, 40))]
+        qs = [rng.choice(ref), gen.mutate(rng, base, "ABX*_qC", 1)][: rng.randint(1, 2)]
+        add_symdel("many-refs-any-alphabet", ref, qs, 1, model=False)
     # all strings of a pool against themselves
     for alpha, pool in pools:
         add_symdel(f"E({alpha})-all", list(pool), list(pool), 2, model=len(pool) <= 45)
@@ -131,13 +137,18 @@ def run(chk):
                 qs = hist[rng.randrange(len(hist))]            # repeat an earlier lookup
             hist.append(qs)
             kk = k
+            mode_h = "lev"
             if kind == "SymdelDB":
-                st, val = core.call_real(lambda: core.canon_trips(db.lookup(qs)))
+                mode_h = rng.choice(["lev", "lev", "ham"])
+                if mode_h == "ham":
+                    st, val = core.call_real(lambda: core.canon_trips(db.lookup(qs, custom_distance="hamming")))
+                else:
+                    st, val = core.call_real(lambda: core.canon_trips(db.lookup(qs)))
             else:
                 # a LookupDB serves lookups at ANY radius: vary it within one history (ascending, descending, repeated)
                 kk = rng.choice([1, 2]) if max(len(q) for q in qs + [""]) <= 3 else 1
                 st, val = core.call_real(lambda: core.canon_trips(db.lookup(qs, max_edits=kk)))
-            ops.append({"op": "brute_cross", "ref": ref, "qs": qs, "k": kk, "mode": "lev"})
+            ops.append({"op": "brute_cross", "ref": ref, "qs": qs, "k": kk, "mode": mode_h})
             expect.append((kind, ref, kk, list(hist), (st, val)))
             state1 = db.variant_dict if kind == "SymdelDB" else db.seq_dict
             if state1 != state0 or list(db.seqs) != list(ref):
